@@ -668,6 +668,30 @@ func runC10(c *Check) {
 				"a submission with a foreign chain id can reach the queue", g, g.MustPrecede(nodeSet(validID), isAdd))
 			c.Decide("C10-R2", "SubmitBatchTxs ⟂ empty-batch-leaves-no-trace", fn, p.InstrPos(adds[0].In), "AddBatch only for a non-empty batch",
 				"an empty batch can reach the queue", g, g.MustPrecede(nodeSet(nonEmpty), isAdd))
+			// every other entry point of the sequencer that touches the queue does so only after the id check
+			for _, m := range p.MethodsOf(sub.Signature.Recv().Type()) {
+				if m == sub || m.Object() == nil || !m.Object().Exported() || m.Blocks == nil {
+					continue
+				}
+				gm := BuildECFG(p, m, ExpandOpts{MaxDepth: 0})
+				isQ := func(n *Node) bool {
+					cc := CallCommonOf(n)
+					if cc == nil || cc.StaticCallee() == nil || cc.StaticCallee().Signature.Recv() == nil {
+						return false
+					}
+					return cc.StaticCallee().Signature.Recv().Type().String() == add.Signature.Recv().Type().String() && (cc.StaticCallee() == add || cc.StaticCallee() == next)
+				}
+				if len(gm.Select(isQ)) == 0 {
+					continue
+				}
+				c.NoteGraph(gm)
+				vm := gm.Select(EdgeWhere(func(t *Term, pol bool, n *Node) bool {
+					t, pol = normFact(t, pol)
+					return pol && t.Op == "call" && strings.Contains(t.Name, "Sequencer).isValid")
+				}))
+				c.Decide("C10-R2", fnShort(m)+" ⟂ foreign-id-leaves-no-trace", fnName(m), p.InstrPos(gm.Select(isQ)[0].In), "the queue is touched only after the chain id check passed",
+					"a request with a foreign chain id changes the queue before it is refused: the batch it removes is neither handed to the rightful chain nor kept", gm, gm.MustPrecede(nodeSet(vm), isQ))
+			}
 			// the id check compares with the sequencer's own id
 			iv := p.Func("(*" + singlePkg + ".Sequencer).isValid")
 			if iv != nil {
